@@ -861,6 +861,7 @@ def r2_subtraj_slots(ck, repo, nf):
                 raise AnalysisError(f"{site}: `{short(n.ast, 60)}` changes an element of the returned list (unrecognised form)")
     load_idx = parse_expr("self.insert_idx")
     seen_sig, bad_sig = set(), []
+    per_path = []
     for pth in enumerate_paths(scfg, scfg.entry, {r.id for r in srets}, max_paths=20000):
         ret_node = scfg.nodes[pth[-1][0]]
         pe = PathEval(nf, scfg, mi, "subtraj.add", {})
@@ -870,6 +871,10 @@ def r2_subtraj_slots(ck, repo, nf):
             if nd.kind == "stmt" and any(dotted(t) == "self.insert_idx" for t in _targets(nd.ast)):
                 written.append(pe.ev(load_idx).canon())
             pe.step(nid, lab)
+        # second reading of "the slots written": the ring positions at which the path stores into the storage dict (one advance by two after
+        # both rows, a precomputed successor position ... do not matter).  Loops over the fields are enumerated with zero or one iteration,
+        # so the positions are collected over all paths that return the same list.
+        stored = {str(i_) for (_n, b_, i_, _v) in pe.effects if b_.startswith("self.buffer[") and i_ is not None}
         rv = pe.ev(ret_node.ast.value)
         got = []
         for mono, c in rv.terms.items():
@@ -878,11 +883,19 @@ def r2_subtraj_slots(ck, repo, nf):
                     got += sem_split_args(a_[1:-1]) * int(c)      # a list display (a, b, ..): its elements
                 else:
                     got.append(a_)
-        sig = (tuple(sorted(got)), tuple(sorted(written)))
+        per_path.append((tuple(sorted(got)), tuple(sorted(written)), stored, rv))
+    stored_for = {}
+    for got, _w, stored, _rv in per_path:
+        stored_for.setdefault(got, set()).update(stored)
+    for got, written, _st, rv in per_path:
+        alt = tuple(sorted(stored_for[got]))
+        if alt and not _unread(*alt) and got == alt:
+            written = alt
+        sig = (got, written)
         if sig in seen_sig:
             continue
         seen_sig.add(sig)
-        if sorted(got) != sorted(written):
+        if got != written:
             # evidence: the returned elements are ring positions (built from what the written slots are built from), only not the written ones
             allowed = set().union(*[_tok(w) for w in written], {"self", "insert_idx", "buffer_size", "mod"})
             if _unread(*got) or not all(_tok(g) <= allowed for g in got):
